@@ -53,7 +53,11 @@ func c07Monitor(st *engine.Step) {
 		// for an OAuth2 callback, "asked" is what the browser's most recent start request asked for
 		// (the oracle's own record - the session's parameter blob may be a leftover of an abandoned start)
 		asked := tag.RM || (tag.Kind == "oauth_cb" && pre.Truth.Flags["c07:oauth-asked:"+b] == "rm")
-		rotated := o.UIDBefore() == "" && c != ""
+		// (a rotation hands out the successor of a LIVE cookie; a dead or foreign-made one has no successor)
+		rotated := false
+		if sec := pre.Truth.ByVal("rm", c); o.UIDBefore() == "" && c != "" && sec != nil && !sec.Dead {
+			rotated = true
+		}
 		if !asked && !rotated {
 			st.Report(engine.Violation{Rule: "C07/cookie-issued-unasked", Attrs: "kind=" + tag.Kind,
 				Detail: fmt.Sprintf("a %s request that did not ask to be remembered (and presented no cookie) was answered with a remember cookie", tag.Kind)})
@@ -231,8 +235,9 @@ func c07Scenarios(tier string) []engine.Scenario {
 	}
 	// a session store that has no state at all for a browser without a session (ReadState returns nil)
 	pvs = append(pvs, pv{"a@x.io", true})
-	for _, v := range pvs {
+	for vi, v := range pvs {
 		x := v.pid
+		rich := vi == 0 || tier == "thorough" // the widest menu on one identifier class (quick), on all (thorough)
 		name := "pid=" + fmt.Sprintf("%q", x)
 		if v.nilState {
 			name += ",nil-state-store"
@@ -267,7 +272,9 @@ func c07Scenarios(tier string) []engine.Scenario {
 				}, ""))
 			}
 			// the bystander logs in, asking to be remembered, on the browser that may hold a session or cookie of the other account
-			a = append(a, flows.A("login(B1,bystander,pw:cur,rm=true)", func(s *world.Stack, _ *world.World) world.Req { return flows.Login(s, "B1", c07Bystander, P2, true) }, ""))
+			if rich {
+				a = append(a, flows.A("login(B1,bystander,pw:cur,rm=true)", func(s *world.Stack, _ *world.World) world.Req { return flows.Login(s, "B1", c07Bystander, P2, true) }, ""))
+			}
 			a = append(a, flows.A("login(B2,bystander,pw:cur,rm=true)", func(s *world.Stack, _ *world.World) world.Req { return flows.Login(s, "B2", c07Bystander, P2, true) }, ""))
 			for _, b := range bothBrowsers {
 				a = append(a, flows.Restart(b))
@@ -293,14 +300,18 @@ func c07Scenarios(tier string) []engine.Scenario {
 				setCookie("B2", "pid+zero-nonce", func(*world.World) string {
 					return base64.URLEncoding.EncodeToString(append([]byte(x+";"), make([]byte, 32)...))
 				}),
-				setCookie("B2", "pid+short-nonce", func(*world.World) string {
-					return base64.URLEncoding.EncodeToString(append([]byte(x+";"), make([]byte, 31)...))
-				}),
-				setCookie("B2", "pid+long-nonce", func(*world.World) string {
-					return base64.URLEncoding.EncodeToString(append([]byte(x+";"), make([]byte, 33)...))
-				}),
-				setCookie("B2", "pid+empty-nonce", func(*world.World) string { return base64.URLEncoding.EncodeToString([]byte(x + ";")) }),
 			)
+			if rich {
+				a = append(a,
+					setCookie("B2", "pid+short-nonce", func(*world.World) string {
+						return base64.URLEncoding.EncodeToString(append([]byte(x+";"), make([]byte, 31)...))
+					}),
+					setCookie("B2", "pid+long-nonce", func(*world.World) string {
+						return base64.URLEncoding.EncodeToString(append([]byte(x+";"), make([]byte, 33)...))
+					}),
+					setCookie("B2", "pid+empty-nonce", func(*world.World) string { return base64.URLEncoding.EncodeToString([]byte(x + ";")) }),
+				)
+			}
 			if sec := w.Truth.Newest("rm", x, false); sec != nil {
 				v := sec.Val
 				a = append(a, setCookie("B2", "live-with-flipped-nonce-bit", func(*world.World) string {
